@@ -17,7 +17,11 @@ approval). It never calls the model's transition function.
      entry is still alive); until then it reads exactly approved − spent (the entry must
      not die earlier);
  (4) approve is rejected iff owner ∉ auth, or amount < 0, or live_until > now + maxTtl − 1,
-     or (amount > 0 and live_until < now).
+     or (amount > 0 and live_until < now) (maxTtl = `max_ttl=` of the sequence label, default
+     200000);
+ (5) no balance goes down while only the ledger moves (`advance`): holdings do not silently
+     vanish over idle periods (`site=fungible.auth.idle_debit`); a getter that traps (`?` in
+     the observation) is flagged too.
 -/
 namespace OZ.Drv.C02
 open OZ.Drv OZ.Drv.FungibleIO
@@ -30,6 +34,7 @@ structure Mon where
   prev : Option Obs
   g : List (Nat × Nat × G)
   n : Nat := N          -- size of the observed universe (`n=` of the sequence label)
+  maxTtl : Nat := MAX_TTL   -- `max_ttl=` of the sequence label
 
 def gOf (g : List (Nat × Nat × G)) (o sp : Nat) : G :=
   match g.find? (fun (a, b, _) => a = o ∧ b = sp) with
@@ -73,6 +78,8 @@ def checkDebits (n : Nat) (prev o : Obs) (g : List (Nat × Nat × G)) (kind : St
             some s!"site=fungible.auth.spend_not_exact allowance {pa} became {o.allowOf f sp} after spending {amt}"
           else none
         | _ => some "site=fungible.auth.parse malformed spend op"
+      else if kind = "advance" then
+        some s!"site=fungible.auth.idle_debit the balance of {h} fell from {balAt prev.bal h} to {balAt o.bal h} while only the ledger moved (to {o.now}): nobody authorized a debit"
       else
         some s!"site=fungible.auth.debit_by_{kind} the balance of {h} went down in a {kind}"
     else none)
@@ -111,6 +118,9 @@ def orElse (a : Option String) (b : Unit → Option String) : Option String :=
   | none => b ()
 
 def check (m : Mon) (opl obs : String) : Mon × Option String :=
+  if obs.contains '?' then
+    (m, some s!"site=fungible.auth.getter_trap a getter of the token trapped: {obs}")
+  else
   match parseObs obs with
   | none => (m, some s!"site=fungible.auth.parse unparsable observation {obs}")
   | some o =>
@@ -138,14 +148,14 @@ def check (m : Mon) (opl obs : String) : Mon × Option String :=
     let bounds : Option String :=
       if kind = "approve" then
         let owner := a.head?.getD 0
-        let mustReject : Bool := decide (owner ∉ auth) || decide (amt < 0) || decide (lu > now + MAX_TTL - 1)
+        let mustReject : Bool := decide (owner ∉ auth) || decide (amt < 0) || decide (lu > now + m.maxTtl - 1)
           || (decide (amt > 0) && decide (lu < now))
         if o.ok ∧ owner ∉ auth then
           some s!"site=fungible.auth.approve_unauthorized approve accepted without the owner {owner}'s authorization (auth={auth})"
         else if o.ok ∧ mustReject then
-          some s!"site=fungible.auth.approve_bounds approve amt={amt} lu={lu} accepted at ledger {now} (max live_until {now + MAX_TTL - 1})"
+          some s!"site=fungible.auth.approve_bounds approve amt={amt} lu={lu} accepted at ledger {now} (max live_until {now + m.maxTtl - 1})"
         else if ¬ o.ok ∧ ¬ mustReject then
-          some s!"site=fungible.auth.approve_bounds approve amt={amt} lu={lu} rejected at ledger {now} although owner authorized, amt >= 0 and now <= lu <= {now + MAX_TTL - 1}"
+          some s!"site=fungible.auth.approve_bounds approve amt={amt} lu={lu} rejected at ledger {now} although owner authorized, amt >= 0 and now <= lu <= {now + m.maxTtl - 1}"
         else none
       else none
     let fail :=
@@ -154,14 +164,15 @@ def check (m : Mon) (opl obs : String) : Mon × Option String :=
       orElse (if o.ok then checkDebits m.n prev o m.g kind a auth amt else none) fun _ =>
       orElse (checkRaises m.n prev o kind a auth amt) fun _ =>
       checkGhost m.n o g'
-    ({ prev := some o, g := g', n := m.n }, fail)
+    ({ m with prev := some o, g := g' }, fail)
 
 def machine : Machine where
   σ := M
   init := initM
   op := stepLine
   μ := Mon
-  minit := fun label => { prev := none, g := [], n := labelN label }
+  minit := fun label =>
+    { prev := none, g := [], n := labelN label, maxTtl := (kvNat? (words label) "max_ttl").getD MAX_TTL }
   mon := check
 
 end OZ.Drv.C02
